@@ -93,9 +93,19 @@ def pStatus : P (Option StSpec)
 
 def bit (c : Char) : Bool := c = '1'
 
+/-- dimensions of a call that the property says nothing about and that therefore must not show:
+configuration knobs within their limits, other constructors of the same values, a cloned or re-used
+client, pass-through middleware, body hints (harness/src/c02.rs lists what each one does) -/
+def knownFlags : List String :=
+  ["lim", "gen", "clone", "twice", "api2", "hints", "icpt", "knobs", "lazy", "nocomp"]
+
 def parseCase (toks : List String) : Option Case := do
   let (head, r) ← (match toks with | k :: r => some (k.splitOn ".", r) | [] => none)
-  let (kind, s, c) ← (match head with | [k, s, c] => some (k, s.toList, c.toList) | _ => none)
+  let (kindF, s, c) ← (match head with | [k, s, c] => some (k, s.toList, c.toList) | _ => none)
+  -- `+flag`s switch on dimensions that must be INVISIBLE in the result (see harness/src/c02.rs): the
+  -- names are validated, the prediction and the verdict are those of the case without them
+  let (kind, flags) ← (match kindF.splitOn "+" with | k :: fs => some (k, fs) | [] => none)
+  if !flags.all knownFlags.contains then none
   if kind ≠ "call" ∧ kind ≠ "h2" ∧ kind ≠ "h2x" ∧ !kind.startsWith "callz-" then none
   let (q, sr) ← (match s with | ['S', a, b] => some (bit a, bit b) | _ => none)
   let cr ← (match c with | ['C', a] => some (bit a) | _ => none)
